@@ -3,6 +3,7 @@ package main
 // C11: wiring of the cache controller's invalidation markers (mechanism only).
 
 import (
+	"go/types"
 	"fmt"
 	"strings"
 
@@ -63,21 +64,38 @@ func ruleInvalidationWiring(e *Engine, r *Reporter) {
 	}
 	// isInvalidAt consults the store marker and ranges over all entity markers
 	iia := e.Func("pkg/storage/storagewrappers", "isInvalidAt")
+	// both the store-wide marker key and the per-entity marker keys reach a cache lookup (directly, through a local
+	// predicate, or through a slices helper), and a looked-up marker is compared with the entry's timestamp
 	gets := 0
-	eachInstr(iia, false, func(in ssa.Instruction) {
-		if c, ok := in.(ssa.CallInstruction); ok && isInMemoryCacheGet(c) {
-			gets++
+	for _, p := range iia.Params {
+		tn := typeBaseName(p.Type())
+		if sl, ok := p.Type().Underlying().(*types.Slice); ok {
+			tn = typeBaseName(sl.Elem())
 		}
-	})
+		if tn != "Key" && !strings.Contains(strings.ToLower(p.Name()), "key") {
+			continue
+		}
+		fc, _ := e.forwardCalls(p)
+		if fc["cache.Get"] || fc["storage.Get"] || fc["Get"] {
+			gets++
+		} else {
+			for k := range fc {
+				if strings.HasSuffix(k, ".Get") {
+					gets++
+					break
+				}
+			}
+		}
+	}
 	cmp := 0
-	eachInstr(iia, false, func(in ssa.Instruction) {
+	eachInstr(iia, true, func(in ssa.Instruction) {
 		if c, ok := in.(*ssa.Call); ok {
 			if g := c.Call.StaticCallee(); g != nil && g.Name() == "Before" && strings.HasSuffix(describe_(c.Call.Args[1]), ".LastModified") {
 				cmp++
 			}
 		}
 	})
-	r.Check(gets >= 2 && cmp >= 2, fname(iia)+" | store and entity markers compared", e.pos(iia.Pos()), "both marker kinds looked up and compared with the entry time", fmt.Sprintf("isInvalidAt looks up %d marker kinds and compares %d of them with the entry timestamp (needs both)", gets, cmp))
+	r.Check(gets >= 2 && cmp >= 1, fname(iia)+" | store and entity markers compared", e.pos(iia.Pos()), "both marker kinds looked up and compared with the entry time", fmt.Sprintf("isInvalidAt looks up %d of its 2 marker-key inputs and compares %d looked-up marker(s) with the entry timestamp", gets, cmp))
 	// v2
 	tg := e.Func("pkg/storage/storagewrappers", "CachedTupleReader.tryGetFromCache")
 	n = 0
@@ -227,6 +245,28 @@ func ruleInvalidationWiring(e *Engine, r *Reporter) {
 				ok = true
 			}
 		})
+		if !found {
+			eachInstr(fn, true, func(in ssa.Instruction) {
+				via, isCall := in.(ssa.CallInstruction)
+				if !isCall {
+					return
+				}
+				h := staticCallee(via)
+				if h == nil || len(h.Blocks) == 0 || pkgOf(h) != pkgOf(fn) {
+					return
+				}
+				eachInstr(h, true, func(in2 ssa.Instruction) {
+					c, isCall := in2.(ssa.CallInstruction)
+					if !isCall || !c.Common().IsInvoke() || c.Common().Method.Name() != "DetermineInvalidationTime" {
+						return
+					}
+					found = true
+					if e.isStoreSource(c.Common().Args[1], 4) || e.isStoreSource(atCaller(c.Common().Args[1], via), 4) {
+						ok = true
+					}
+				})
+			})
+		}
 		r.Check(found && ok, fname(fn)+" | DetermineInvalidationTime(store of the request)", e.pos(fn.Pos()), "called with the request's store", "the invalidation time is not taken for the request's own store")
 	}
 }
